@@ -93,7 +93,8 @@ def calls(rng, tg, nrandom):
         out.append(("with_host", (h,), {"host": h}))
     for p in (None, 0, 80, 443, 8080, 65535):
         out.append(("with_port", (p,), {"port": p}))
-    for q in ("", "a=1&b=2", {"k": "v w"}, [("k", "1"), ("k", "2")], None):
+    from multidict import MultiDict as _MD
+    for q in ("", "a=1&b=2", {"k": "v w"}, [("k", "1"), ("k", "2")], None, _MD([("k", "1"), ("z", "3"), ("k", "2")])):
         out.append(("with_query", (q,), {"query": "replace"}))
         out.append(("extend_query", (q,), {"query": "extend"}))
         out.append(("update_query", (q,), {"query": "update"}))
@@ -197,6 +198,12 @@ def do_call(u, name, args, spec):
     return getattr(u, name)(*args)
 
 
+def _multidict_types():
+    from multidict import MultiDict, MultiDictProxy
+
+    return (MultiDict, MultiDictProxy)
+
+
 def check(ctx, base_text, u, bv, name, args, spec, bshape, encoded_base=False):
     from yarl import URL
 
@@ -276,6 +283,12 @@ def check(ctx, base_text, u, bv, name, args, spec, bshape, encoded_base=False):
         exp.pop("raw_query_string")  # C12 judges the content
         if not encoded_base and rfc.component_errors(rv["raw_query_string"], rfc.QUERY_CHARS):
             errs.append(f"raw_query_string={rv['raw_query_string']!r} not RFC-legal")
+        if args and isinstance(args[0], (list, _multidict_types())):
+            # ... and reads back as the argument: every pair handed over is in the result, as often as it was given
+            want = [(k, str(v)) for k, v in (args[0].items() if hasattr(args[0], "items") else args[0])]
+            got = guarded(lambda: list(r.query.items()))
+            if is_exc(got) or any(got.count(p) < want.count(p) for p in want):
+                errs.append(f"query {got!r} lacks pair(s) of the argument {want!r}")
         if spec["query"] == "without":
             # the targeted component reads back as asked: no pair with a removed key is left, however often it occurred
             left = guarded(lambda: [k for k in r.query.keys() if k in args])
